@@ -167,10 +167,29 @@ std::string vf_run(const Case &c, vf::Ctx &ctx) {
   {
     static int hits;
     hits = 0;
-    rtosc::Ports table({{c.pattern.c_str(), "", nullptr, [](const char *, rtosc::RtData &) { hits++; }},
-                        {"zz_decoy:", "", nullptr, [](const char *, rtosc::RtData &) {}},
-                        {"yd:", "", nullptr, [](const char *, rtosc::RtData &) {}},
-                        {"xdecoy/", "", nullptr, [](const char *, rtosc::RtData &) {}}});   // (a table of two names does not get a hash)
+    auto counting = [](const char *, rtosc::RtData &) { hits++; };
+    auto silent = [](const char *, rtosc::RtData &) {};
+    // three shapes of the table: the port and three decoys; additionally an anagram of a literal name behind it (two names
+    // that a hash over character positions cannot tell apart); or the port twice (both entries have to be called)
+    const int shape = (int)((c.pattern.size() + c.address.size()) % 3);
+    std::string path = c.pattern.substr(0, c.pattern.find(':'));
+    std::string anagram(path.rbegin(), path.rend());
+    const bool literal_leaf = path.find_first_of("#{/") == std::string::npos && path.size() >= 2 && anagram != path;
+    std::vector<rtosc::Port> pv;
+    pv.push_back({c.pattern.c_str(), "", nullptr, counting});
+    const std::string rep_first(path.size(), path.empty() ? 'a' : path[0]), rep_last(path.size(), path.empty() ? 'a' : path.back());
+    if (shape == 1 && literal_leaf) {
+      pv.push_back({anagram.c_str(), "", nullptr, silent});
+      // and two names of the same length that share a character with each of them, so that no single position tells all four apart
+      if (rep_first != path && rep_first != anagram) pv.push_back({rep_first.c_str(), "", nullptr, silent});
+      if (rep_last != path && rep_last != anagram && rep_last != rep_first) pv.push_back({rep_last.c_str(), "", nullptr, silent});
+    }
+    if (shape == 2) pv.push_back({c.pattern.c_str(), "", nullptr, counting});
+    pv.push_back({"zz_decoy:", "", nullptr, silent});
+    pv.push_back({"yd:", "", nullptr, silent});
+    pv.push_back({"xdecoy/", "", nullptr, silent});
+    struct DP : rtosc::Ports { explicit DP(const std::vector<rtosc::Port> &v) : rtosc::Ports({}) { ports = v; refreshMagic(); } } table(pv);
+    const int expect_hits = shape == 2 ? 2 : 1;
     bool pm = refmatch::path_matches(p, c.address);
     refmatch::Expect te = refmatch::types_expect(p, c.tags);
     for (int with_loc = 0; with_loc < 2; with_loc++) {
@@ -181,9 +200,10 @@ std::string vf_run(const Case &c, vf::Ctx &ctx) {
       if (with_loc) { d.loc = loc; d.loc_size = sizeof loc; }
       table.dispatch(buf, d, false);
       const char *how = with_loc ? "with" : "without";
-      if (pm && te == refmatch::MUST && hits != 1) return std::string("Ports::dispatch ") + how + " location buffer does not call port \"" + c.pattern + "\" for \"" + c.address + "\" ,\"" + c.tags + "\" (" + std::to_string(hits) + " calls)";
+      if (pm && te == refmatch::MUST && hits != expect_hits) return std::string("Ports::dispatch ") + how + " location buffer calls port \"" + c.pattern + "\" " + std::to_string(hits) + " time(s) for \"" + c.address + "\" ,\"" + c.tags + "\", the table holds it " + std::to_string(expect_hits) + " time(s)" + (shape == 1 && literal_leaf ? " (next to its anagram \"" + anagram + "\")" : "");
       if ((!pm || te == refmatch::MUST_NOT) && hits != 0) return std::string("Ports::dispatch ") + how + " location buffer calls port \"" + c.pattern + "\" for \"" + c.address + "\" ,\"" + c.tags + "\" although the message does not match";
     }
+    ctx.count(shape == 2 ? "dispatch.port_twice_in_table" : (shape == 1 && literal_leaf) ? "dispatch.port_next_to_its_anagram" : "dispatch.port_and_decoys");
     ctx.count("dispatch.one_port_table");
     { std::string path = c.pattern.substr(0, c.pattern.find(':')); size_t fs = path.find('/'); if (path.find_first_of("#{") == std::string::npos && fs != std::string::npos && fs + 1 < path.size() && path.back() == '/') ctx.count(pm && te == refmatch::MUST ? "dispatch.literal_multi_component_subtree_name.matching" : "dispatch.literal_multi_component_subtree_name.other"); }
   }
